@@ -215,6 +215,7 @@ func init() {
 	register("C03", "Sibling cross-check of the five independently written generators against one absolute table: every cell of the encode and decode matrices must be satisfied by all five languages (the odd one out is named), the five GetPadding helpers must branch on the same facts and recognise every pad-character spelling the parser can produce, and the per-language scalar tables must agree (keys, sizes, distinct LE/BE columns). "+
 		"Agreement of the five runtimes and of the bytes themselves is not decided.", func(w *World, r *Report) {
 		wc := buildWire(w, r)
+		matrixEvidence(wc, r)
 		wireSiblingMatrix(wc, r)
 		wirePaddingSiblings(wc, r, "C03")
 		wirePadSpellings(w, wc, r)
@@ -261,6 +262,33 @@ func init() {
 		wireTables(w, r, "C15")
 		wireAssumptions(r)
 	})
+}
+
+// matrixEvidence records the per-cell dependence sets of all languages (what the sibling matrix compared).
+func matrixEvidence(wc *wireCtx, r *Report) {
+	rows := map[string]map[string]string{}
+	for _, ga := range anchorTable {
+		for _, dir := range []string{"enc", "dec"} {
+			for _, c := range wc.cells[ga.Lang+"/"+dir] {
+				if c.cl.need == 0 {
+					continue
+				}
+				k := fmt.Sprintf("%s/%s needs %s", dir, c.u, c.cl.need)
+				if rows[k] == nil {
+					rows[k] = map[string]string{}
+				}
+				v := "ok in " + c.where
+				if !c.ok {
+					v = "MISSING " + (c.cl.need &^ c.have).String()
+				}
+				rows[k][ga.Lang] = v
+			}
+		}
+	}
+	if r.Extra == nil {
+		r.Extra = map[string]any{}
+	}
+	r.Extra["wire_matrix"] = rows
 }
 
 func wireAssumptions(r *Report) {
